@@ -25,6 +25,10 @@ type Program struct {
 	// Parquet, when set, makes the pipeline run `parquetgen -parquet <file>`
 	// instead of `-input` (C15); Source is then ignored.
 	Parquet string
+	// ExternalType puts the struct definitions into a package of their own
+	// (<dir>/types) and runs parquetgen with -import, the documented way of
+	// generating code for a type that lives elsewhere.
+	ExternalType bool
 }
 
 // Failure is one oracle failure reported by the runner.
@@ -119,11 +123,22 @@ func RunBatch(cfg BatchConfig, progs []Program) ([]Result, error) {
 			args1 = []string{"-parquet", p.Parquet, "-type", p.Type, "-package", p.Name, "-output", "parquet.go", "-struct-output", "types.go"}
 			args2 = []string{"-parquet", p.Parquet, "-type", p.Type, "-package", p.Name, "-output", "parquet2.go", "-struct-output", "types2.go"}
 		} else {
-			if err := os.WriteFile(filepath.Join(pd, "types.go"), []byte(p.Source), 0o644); err != nil {
-				return nil, err
+			if p.ExternalType {
+				os.MkdirAll(filepath.Join(pd, "types"), 0o755)
+				src := strings.Replace(p.Source, "package "+p.Name+"\n", "package types\n", 1)
+				if err := os.WriteFile(filepath.Join(pd, "types", "types.go"), []byte(src), 0o644); err != nil {
+					return nil, err
+				}
+				imp := importBase + "/" + p.Name + "/types"
+				args1 = []string{"-input", "types/types.go", "-type", p.Type, "-package", p.Name, "-output", "parquet.go", "-import", imp}
+				args2 = []string{"-input", "types/types.go", "-type", p.Type, "-package", p.Name, "-output", "parquet2.go", "-import", imp}
+			} else {
+				if err := os.WriteFile(filepath.Join(pd, "types.go"), []byte(p.Source), 0o644); err != nil {
+					return nil, err
+				}
+				args1 = []string{"-input", "types.go", "-type", p.Type, "-package", p.Name, "-output", "parquet.go"}
+				args2 = []string{"-input", "types.go", "-type", p.Type, "-package", p.Name, "-output", "parquet2.go"}
 			}
-			args1 = []string{"-input", "types.go", "-type", p.Type, "-package", p.Name, "-output", "parquet.go"}
-			args2 = []string{"-input", "types.go", "-type", p.Type, "-package", p.Name, "-output", "parquet2.go"}
 		}
 		// the tool is normally re-run in place (go generate): its output files
 		// already exist, longer than what it is about to write
@@ -159,7 +174,11 @@ func RunBatch(cfg BatchConfig, progs []Program) ([]Result, error) {
 			os.RemoveAll(pd)
 			continue
 		}
-		os.WriteFile(filepath.Join(pd, "glue.go"), []byte(sut.GlueSource(p.Name, p.Target, p.Type)), 0o644)
+		if p.ExternalType {
+			os.WriteFile(filepath.Join(pd, "glue.go"), []byte(sut.GlueSourceImport(p.Name, p.Target, p.Type, importBase+"/"+p.Name+"/types")), 0o644)
+		} else {
+			os.WriteFile(filepath.Join(pd, "glue.go"), []byte(sut.GlueSource(p.Name, p.Target, p.Type)), 0o644)
+		}
 		if x, ok := cfg.ExtraFiles[p.Name]; ok {
 			os.WriteFile(filepath.Join(pd, "extra.go"), []byte(x), 0o644)
 		}
